@@ -96,6 +96,11 @@ def build(ctx: RunCtx) -> Prop:
     verify += c01_mem.contracts(T, reg, ctx)
     from . import c01_sqlite
     verify += c01_sqlite.contracts(T, reg, ctx)
+    # the only public writer: BaseOrchestrator.set_invocation_status hands exactly (id, status, requester's runner id) to the atomic transition
+    from . import glue
+    reg.T = T
+    G = glue.glue_contracts(T, reg)
+    verify += [G["set_invocation_status"]]
     prop = Prop(
         pid=PID, title="lifecycle state machine: status_record_transition == spec_step; Mem transition keeps the index invariant; "
                        "refused requests change nothing; both backends enumerated over the complete single-step space",
